@@ -133,7 +133,7 @@ int MPI_File_write_at_all(MPI_File fh, MPI_Offset o, const void *b, int n, MPI_D
 
 /* ------------------------------------------------------------------ scenarios */
 typedef struct {
-    char id[96], api[48], pre[32], cls[8][32];
+    char id[96], api[48], pre[80], cls[8][32];
     int safe, hcoll, aggr, dup, mu, ncls, post_abort;
 } Case;
 
@@ -558,11 +558,51 @@ static void log_layout(int ncid, const char *tag)
     lg("%s\n", b);
 }
 
+/* new variables in fill mode of chosen sizes, for the fill block of enddef (fillerup_aggregate):
+ * spec = comma separated items [x]s | [x]f<k> | [x]r<k>:  s scalar, f<k> fixed 1-D, r<k> record [t][k] (r0: [t] only);
+ * k = 1, 2, m (nprocs-1), n (nprocs), p (nprocs+1), 0 (only r0); x = not in fill mode.
+ * global != 0: ncmpi_set_fill(NC_FILL) instead of ncmpi_def_var_fill per variable */
+static int define_fill_vars(int ncid, const char *spec, int global)
+{
+    char buf[80], *tok, *save = NULL; int i = 0, old;
+    if (global) CK(ncmpi_set_fill(ncid, NC_FILL, &old));
+    snprintf(buf, sizeof buf, "%s", spec);
+    for (tok = strtok_r(buf, ",", &save); tok; tok = strtok_r(NULL, ",", &save), i++) {
+        int nofill = 0, v, d[2], nd = 0, len = 0; char name[16], dname[16];
+        if (*tok == 'x') { nofill = 1; tok++; }
+        if (tok[0] == 'f' || tok[0] == 'r') {
+            switch (tok[1]) { case '1': len = 1; break; case '2': len = 2; break; case 'm': len = g_np - 1; break;
+                              case 'n': len = g_np; break; case 'p': len = g_np + 1; break; default: len = 0; }
+        }
+        if (tok[0] == 'r') d[nd++] = dim_t;
+        if (len > 0) { snprintf(dname, sizeof dname, "L%d_%d", len, i); CK(ncmpi_def_dim(ncid, dname, len, &d[nd])); nd++; }
+        snprintf(name, sizeof name, "e%d", i);
+        CK(ncmpi_def_var(ncid, name, NC_INT, nd, d, &v));
+        if (nofill) CK(ncmpi_def_var_fill(ncid, v, 1, NULL));
+        else if (!global) CK(ncmpi_def_var_fill(ncid, v, 0, NULL));
+    }
+    return 0;
+}
+
+static int prepare_fill(const Case *c)
+{
+    const char *pre = c->pre; int ncid, rc, global = (pre[0] == 'g');
+    if (pre[1] == 'n') {                    /* first define mode of a new file */
+        rc = setup_file(c, &ncid, 0); g_ncid = ncid; g_state = 2; if (rc) return rc;
+        return define_fill_vars(ncid, pre + 3, global);
+    }
+    rc = setup_file(c, &ncid, 1); g_ncid = ncid; if (rc) return rc;     /* define mode after redef, 2 records exist */
+    log_layout(ncid, "old");
+    CK(ncmpi_redef(ncid)); g_state = 2;
+    return define_fill_vars(ncid, pre + 3, global);
+}
+
 /* scenario preparation beyond the standard file */
 static int prepare(const Case *c, const char *cls)
 {
     const char *pre = c->pre; int ncid; int rc;
     g_state = 0; g_nexp = 0; g_exp_numrecs = -1; g_nreq = 0; g_ncid = -1;
+    if ((pre[0] == 'f' || pre[0] == 'g') && (pre[1] == 'n' || pre[1] == 'r') && pre[2] == ':') return prepare_fill(c);
     if (!strcmp(pre, "none")) { g_state = 3; unlink(g_path); return 0; }           /* create on a fresh path */
     if (!strcmp(pre, "new")) { rc = setup_file(c, &ncid, 0); g_ncid = ncid; g_state = 2; return rc; }
     if (!strcmp(pre, "empty")) {         /* a new file without dimensions and variables, still in define mode */
